@@ -848,7 +848,7 @@ class MacroProgram(ElementProgram):
                 if expr is not None:
                     if name is None:
                         expression = nodes.Value(
-                            decode_htmlentities(expr),
+                            expr,
                             default,
                             self.default_marker
                         )
@@ -870,7 +870,7 @@ class MacroProgram(ElementProgram):
                             expr, name, default, self.default_marker)
                     else:
                         value = nodes.Substitution(
-                            decode_htmlentities(expr),
+                            expr,
                             char_escape,
                             default,
                             self.default_marker,
